@@ -12,3 +12,9 @@ pub(crate) fn verif_obj_2(s0: u16, w0: Vec<Option<u16>>, s1: u16, w1: Vec<Option
     block_map.insert(s1, w1);
     ObjectFile { block_map, sym: None }
 }
+/// an object file without blocks whose symbol table holds the single label "A" (external or not)
+pub(crate) fn verif_obj_label_only(addr: u16, external: bool) -> ObjectFile {
+    let mut label_map = HashMap::new();
+    label_map.insert(String::from("A"), SymbolData { addr, src_start: 0, external });
+    ObjectFile { block_map: BTreeMap::new(), sym: Some(SymbolTable { label_map, rel_map: HashMap::new(), debug_symbols: None }) }
+}
